@@ -276,6 +276,11 @@ impl FromStr for HLCTimestamp {
             .and_then(|v| v.parse::<u8>().ok())
             .ok_or(InvalidFormat)?;
 
+        // Out of range fields cannot be packed and must not reach the assertion in `new`.
+        if seconds > TIMESTAMP_MAX || fractional >= 250 {
+            return Err(InvalidFormat);
+        }
+
         Ok(Self::new(
             parts_as_duration(seconds, fractional),
             counter,
